@@ -10,6 +10,8 @@ RULE = ('cell = (router class, hash type, destination set, replication factor, D
         'candidate strings) plus random metric names; a cell is non-trivial when it has >=2 destinations or '
         'RF>=2; after the fresh sweep up to 4 remove/re-add steps are applied and the oracle is re-run on every 16th '
         'position against the then-configured set; distinct = distinct cells')
+RULE_MORE = (' Also: empty destination sets, node names colliding in the 16-bit hash, instances announced again on another port, name caches (CACHE_METRIC_NAMES_MAX) with repeat lookups after many other keys, aggregated routers checked against the union over their aggregate names.')
+RULE = RULE + RULE_MORE
 EXHAUSTIVE = {'quick': True, 'thorough': True}
 EXHAUSTIVE_OVER = 'ring positions 0..65535 per cell (key space of the ring through the public API)'
 ASSUMPTIONS = ['mmh3_ch hash type not runnable (mmh3 absent): only carbon_ch and fnv1a_ch are quantified over',
